@@ -78,6 +78,9 @@ def check_case(acc, chain_l, cur, locking, load, duty, init=None, redeclared=Fal
         return
     if scale:
         spec = menu.scaled(spec, scale)          # micro-mechanism: torques and inertias x scale, written in kNm / kgm^2
+        spec['declare_order'] = 'reverse'        # ... whose relations are declared from the output back to the motor
+    if teeth_mode == 'equal':
+        spec['declare_order'] = 'matings-first'
     stall = menu.stall_at_output(spec)
     spec['load'] = load_spec(load, stall)
     d = len(duty)
